@@ -511,4 +511,13 @@ example : isBilinear 2 [exU] [exV]
 example : isLinearLumped 2 [exV] [("Omega", mul [exFld, exV]), ("Gamma", pow exV (num 2 1))] = .ok false := by decide
 example : isLinearTermwise 2 [exV] [("Omega", add [mul [exFld, exV], mul [sym "x", exV]])] = .ok true := by decide
 
+/-! floating-point coefficients reach the model as their exact rational values (`num p q`): here
+    `(x + 0.1)·v + 0.2·v` with the binary values of `0.1` and `0.2`; the comparison is exact -/
+example : isLinear 2 [exV]
+    [("Omega", add [mul [add [sym "x", num 3602879701896397 36028797018963968], exV],
+                    mul [num 3602879701896397 18014398509481984, exV]])] = .ok true := by decide
+example : isLinear 2 [exV]
+    [("Omega", add [mul [add [sym "x", num 3602879701896397 36028797018963968], exV],
+                    num 3602879701896397 18014398509481984])] = .ok false := by decide
+
 end Sympde.Linear
